@@ -2,6 +2,7 @@ import Sentinel.Lemmas.LeapArrayRace
 import Sentinel.Lemmas.LeapArrayRaceTerm
 import Sentinel.Lemmas.LeapArrayRaceOwn
 import Sentinel.Lemmas.LeapArrayRaceStarted
+import Sentinel.Lemmas.LeapArrayRaceRead
 /-!
 # C09 — Sliding-window counters stay sound under concurrent writers and rollover
 (property theorems only; the invariants live in `Sentinel/Lemmas/LeapArrayRace*.lean`)
@@ -211,6 +212,37 @@ theorem solo_terminates (k : Nat) (c : Cfg) (i : Nat) (t : Th) (hm : MutexInv c)
     obtain ⟨t', h1, h2⟩ := ih (c.exec (.step i)) _ (exec_mutex c _ hm) hget hoth hmeas
     exact ⟨t', by simpa [List.replicate_succ, run] using h1, h2⟩
 
+/-- **lock-freedom (system-wide progress)** — at every configuration satisfying the lock discipline in which some
+    thread has not finished, there is a thread whose next step strictly decreases its measure: the lock holder when
+    the lock is held (it never waits for anybody), any unfinished thread when it is free.  Hence a spinning thread
+    never spins for want of somebody able to make progress (no deadlock, no livelock of the whole system). -/
+theorem progress_possible (c : Cfg) (hm : MutexInv c) (hnf : c.allFinished = false) :
+    ∃ (i : Nat) (t : Th), c.th[i]? = some t ∧ t.finished = false ∧
+      (stepTh c.sh c.clock t).2.meas c.sh.n < t.meas c.sh.n := by
+  by_cases hl : c.sh.lock = true
+  · obtain ⟨i, t, hi, hc⟩ := hm.held hl
+    have hnft : t.finished = false := by
+      unfold Th.inCrit at hc
+      cases hcur : t.cur with
+      | none => rw [hcur] at hc; cases hc
+      | some f => simp [Th.finished, hcur]
+    refine ⟨i, t, hi, hnft, stepTh_meas c.sh c.clock t hnft ?_⟩
+    intro f hcur hpc
+    simp [Th.inCrit, hcur, hpc, Pc.inCrit] at hc
+  · have hl' : c.sh.lock = false := by simpa using hl
+    have : ∃ t ∈ c.th, t.finished = false := by
+      by_contra hcon
+      have : c.allFinished = true := by
+        unfold Cfg.allFinished
+        rw [List.all_eq_true]
+        intro t ht
+        by_contra h
+        exact hcon ⟨t, ht, by simpa using h⟩
+      rw [this] at hnf; cases hnf
+    obtain ⟨t, ht, hnft⟩ := this
+    obtain ⟨i, hi⟩ := List.getElem?_of_mem ht
+    exact ⟨i, t, hi, hnft, stepTh_meas c.sh c.clock t hnft (fun _ _ _ => hl')⟩
+
 /-! ## data of an expired bucket is never visible — FALSE at this granularity (known finding) -/
 
 /-- the configuration of the known finding `stale-counters-visible`: array 2×500 created at 1000, 5 passes
@@ -354,18 +386,46 @@ example : (run witnessInit (witnessSched.take 9)).sh.dirty 0 0 = true
     ∧ (run witnessInit (witnessSched.take 9)).sh.cnt 0 0 = 5
     ∧ (run witnessInit (witnessSched.take 9)).sh.fresh 0 0 = 0 := by decide
 
-/-- full reader-level statement of clause (c), kept as a statement: after a schedule in which no add was executed
-    on a dirty word (`lost` is 0 everywhere) and which has completed (all threads finished), a further solo reader
-    started at clock `tr` returns exactly the sum of `fresh` over the slots that are valid at `tr` -/
-def exact_reader_statement : Prop :=
-  ∀ (n L Iv t0 clock : Nat) (progs : List (List OpSpec)) (s : List Entry) (ev tr k : Nat),
+/-- **exact_when_no_overlap, reader level** — take any reachable configuration in which, for event `ev`, no word is in
+    the middle of being recycled and no add has overlapped a rollover (`lost = 0`).  A reader of the view started
+    at clock `tr` and scheduled without interference terminates after `1 + 2n + |V|` steps and returns exactly the
+    total recorded (`fresh`) in the slots `V` that pass the view's filter at `tr` (not deprecated, start inside the
+    view's range). -/
+theorem exact_solo_reader (n L Iv t0 clock : Nat) (progs : List (List OpSpec)) (s : List Entry) (ev tr : Nat)
+    (htr : 0 < tr) (hn : 0 < n)
+    (hd : ∀ j, (run (fresh n L Iv t0 clock progs) s).sh.dirty j ev = false)
+    (hl : ∀ j, (run (fresh n L Iv t0 clock progs) s).sh.lost j ev = 0) :
     let c := run (fresh n L Iv t0 clock progs) s
-    c.allFinished = true → (∀ i j, c.sh.lost i j = 0) → 0 < tr → 0 < n →
-    ((run (nextRound c tr [[.viewsum ev]]) (List.replicate k (.step 0))).th[0]?.map fun t => t.finished) = some true →
-    ((run (nextRound c tr [[.viewsum ev]]) (List.replicate k (.step 0))).th[0]?.map fun t => t.res.map (·.val))
-      = some [some (((List.range n).filter fun j =>
-          !Sentinel.LA.deprecated (n * L) tr (c.sh.start j) &&
-            decide ((Sentinel.LA.rangeOf L Iv tr).1 ≤ c.sh.start j ∧ c.sh.start j ≤ (Sentinel.LA.rangeOf L Iv tr).2)).map
-          fun j => c.sh.fresh j ev).sum]
+    let V := validFrom c.sh tr n 0
+    let c' := run (nextRound c tr [[.viewsum ev]]) (List.replicate (1 + 2 * n + V.length) (.step 0))
+    (c'.th[0]?.map fun t => (t.finished, t.res.map (·.val)))
+      = some (true, [some ((V.map fun j => c.sh.fresh j ev).sum)]) := by
+  intro c V c'
+  have hcn : c.sh.n = n := by
+    show (run (fresh n L Iv t0 clock progs) s).sh.n = n
+    rw [run_n]; rfl
+  have h := solo_viewsum (nextRound c tr [[.viewsum ev]]) 0 ev (by simp [nextRound]) htr (by
+    show 0 < c.sh.n
+    omega)
+  simp only at h
+  have hsh : (nextRound c tr [[.viewsum ev]]).sh = c.sh := rfl
+  have hck : (nextRound c tr [[.viewsum ev]]).clock = tr := rfl
+  rw [hsh, hck, hcn] at h
+  have hsum : sumCnt c.sh ev V = (V.map fun j => c.sh.fresh j ev).sum := by
+    unfold sumCnt
+    congr 1
+    apply List.map_congr_left
+    intro j _
+    exact exact_when_no_overlap n L Iv t0 clock progs s j ev (hd j) (hl j)
+  show (c'.th[0]?.map fun t => (t.finished, t.res.map (·.val))) = _
+  have h2 : c'.th[0]? = some (rdDone c.sh ev tr [] (sumCnt c.sh ev V)) := h.2
+  rw [h2, hsum]
+  simp [rdDone, Th.finished, mkRes]
+
+/-- non-vacuity of `exact_solo_reader`: after a sequential add of 5 the hypotheses hold and the reader returns 5 -/
+example :
+    let c := run (fresh 2 500 1000 1000 1000 [[.add 0 5]]) [.step 0, .step 0, .step 0]
+    (∀ j < 2, c.sh.dirty j 0 = false ∧ c.sh.lost j 0 = 0)
+      ∧ ((validFrom c.sh 1400 2 0).map fun j => c.sh.fresh j 0) = [5] := by decide
 
 end Sentinel.C09
